@@ -17,11 +17,11 @@ var notApplicableFaults = []string{
 
 func baseExtra() map[string]any {
 	return map[string]any{
-		"components_real":           []string{"all of qeep (tensor, gradtrack, cputensor, validator, layers, activations, losses, metrics, optimizers, initializers)", "gonum stat/distuv", "golang.org/x/exp/rand global source"},
-		"components_stubbed":        []string{},
+		"components_real":            []string{"all of qeep (tensor, gradtrack, cputensor, validator, layers, activations, losses, metrics, optimizers, initializers)", "gonum stat/distuv", "golang.org/x/exp/rand global source"},
+		"components_stubbed":         []string{},
 		"fault_kinds_not_applicable": notApplicableFaults,
-		"simulated_time_unit":       "yield points passed (AST-inserted at every function / literal entry and loop body of a scratch copy of /repo)",
-		"instrumented":              sim.Instrumented(),
+		"simulated_time_unit":        "yield points passed (AST-inserted at every function / literal entry and loop body of a scratch copy of /repo)",
+		"instrumented":               sim.Instrumented(),
 	}
 }
 
